@@ -26,7 +26,7 @@ theorem lexLine_token_spans (derom : Bool) (src : Text) (toks : List AToken) (h 
   have hs := lineLoop_spec derom (src.length + 1) { ls := { src := src, pos := 0 } } [] (Nat.lt_succ_self _)
   unfold lexLine at h
   rw [h] at hs
-  obtain ⟨new, hres, hw, t, h1, h2⟩ := hs
+  obtain ⟨new, hres, hw, ⟨t, h1, h2⟩, _⟩ := hs
   simp only [List.nil_append] at hres
   subst hres
   refine ⟨fun t' ht' => ?_, t, h1, h2⟩
@@ -41,10 +41,21 @@ theorem lexLine_tokens_ok (derom : Bool) (src : Text) (toks : List AToken) (h : 
   have hs := lineLoop_spec derom (src.length + 1) { ls := { src := src, pos := 0 } } [] (Nat.lt_succ_self _)
   unfold lexLine at h
   rw [h] at hs
-  obtain ⟨new, hres, hw, t, h1, h2⟩ := hs
+  obtain ⟨new, hres, hw, _, _⟩ := hs
   simp only [List.nil_append] at hres
   subst hres
   exact fun t' ht' => (hw t' ht').2.2.2
+
+/-- **token order**: a token begins where the previous one ends, or later -/
+theorem lexLine_sorted (derom : Bool) (src : Text) (toks : List AToken) (h : lexLine derom src = .ok toks) :
+    toks.Pairwise (fun a b => a.stop ≤ b.start) := by
+  have hs := lineLoop_spec derom (src.length + 1) { ls := { src := src, pos := 0 } } [] (Nat.lt_succ_self _)
+  unfold lexLine at h
+  rw [h] at hs
+  obtain ⟨new, hres, _, _, hpw⟩ := hs
+  simp only [List.nil_append] at hres
+  subst hres
+  exact hpw
 
 /-- **alias lexer errors are well placed** -/
 theorem lexLine_error_span (derom : Bool) (src : Text) (e : LErr) (h : lexLine derom src = .err e) :
